@@ -3,6 +3,7 @@ package main
 // Wiring and configuration-side rules: C02.c, C12.c-e, C14.a-c, C20.d, CONSTRUCTOR-DISCIPLINE.
 
 import (
+	"os"
 	"fmt"
 	"go/types"
 	"sort"
@@ -767,7 +768,95 @@ func ruleEveryFeeder(w *World, r *Run, rule string) {
 		}
 		return true
 	}
+	// unwrap: a function value that only forwards to a captured feeder function — every path calls the captured value once
+	// with its own context, log, witness and interval (the HTTP client may be adapted) and returns that call's result —
+	// stands for the captured value (a per-log wrapper around E.Feeder.FeedFunc()).
+	unwrap := func(s Summary, binds map[string]*Term, before int, v *Term) *Term {
+		for depth := 0; depth < 3 && v != nil && v.Kind == "closure" && isFeederSig(v.Typ); depth++ {
+			cf := w.funcs[v.Name]
+			if cf == nil || len(cf.Params) != 5 || len(cf.FreeVars) != len(v.Args) {
+				return v
+			}
+			ce := w.engine(3, 1)
+			var target *Term
+			ok := true
+			n := 0
+			for _, cs := range ce.Explore(cf) {
+				if cs.Panic {
+					continue
+				}
+				n++
+				var dyn []Event
+				for _, ev := range cs.Events {
+					if ev.Kind == "call" && ev.Callee == "dyn" && ev.Recv != nil && isFeederSig(ev.Recv.Typ) {
+						dyn = append(dyn, ev)
+					}
+				}
+				if cs.Trunc != "" || len(dyn) != 1 || len(cs.Rets) != 1 || cs.Rets[0] != dyn[0].Res || len(dyn[0].Args) != 5 {
+					ok = false
+					break
+				}
+				for _, i := range []int{0, 1, 2, 4} {
+					if dyn[0].Args[i] != mk("param", cf.Params[i].Name(), 0, cf.Params[i].Type()) {
+						ok = false
+					}
+				}
+				rv := dyn[0].Recv
+				if rv.Kind == "deref" && len(rv.Args) == 1 {
+					rv = rv.Args[0]
+				}
+				if rv.Kind != "freevar" || (target != nil && target != rv) {
+					ok = false
+					break
+				}
+				target = rv
+			}
+			if os.Getenv("WCHECK_DEBUG_UNWRAP") != "" {
+				fmt.Fprintf(os.Stderr, "unwrap %s: ok=%v n=%d target=%v binds=%v\n", v, ok, n, target, binds)
+			}
+			if !ok || n == 0 || target == nil {
+				return v
+			}
+			// the captured value: the binding of that free variable (a cell written once per iteration, or the value itself)
+			var bound *Term
+			for i, fv := range cf.FreeVars {
+				if fv.Name() == target.Name {
+					bound = v.Args[i]
+				}
+			}
+			if bound != nil && bound.Kind == "alloc" {
+				if bv, found := binds[bound.key]; found {
+					bound = bv
+				} else if mv, found := s.Mem[bound.key]; found {
+					bound = mv
+				}
+			}
+			if bound == nil {
+				return v
+			}
+			// `ff := table[k]` read back right after `table[k] = …`: the value last stored under the same key on this path
+			if bound.Kind == "lookup" && bound.Name == "val" && len(bound.Args) == 2 {
+				var last *Term
+				for _, mu := range eventsOfKind(s, "mapupdate") {
+					if mu.Recv == bound.Args[0] && (before == 0 || mu.Seq < before) {
+						if mu.Args[0] == bound.Args[1] {
+							last = mu.Args[1]
+						} else if last != nil {
+							last = nil // a later update under another key term may have replaced it
+						}
+					}
+				}
+				if last == nil {
+					return v
+				}
+				bound = last
+			}
+			v = bound
+		}
+		return v
+	}
 	pairOK := func(s Summary, F, c *Term) (bool, string) {
+		F = unwrap(s, nil, 0, F)
 		// the values themselves, when the collection's contents are known on the path
 		if F.Kind == "call" && F.Name == fnFeedFunc {
 			if pairFromOneEntry(c, F) {
@@ -810,7 +899,7 @@ func ruleEveryFeeder(w *World, r *Run, rule string) {
 					continue
 				}
 				n++
-				if !pairFromOneEntry(mu.Args[0], mu.Args[1]) {
+				if !pairFromOneEntry(mu.Args[0], unwrap(s, mu.Binds, mu.Seq, mu.Args[1])) {
 					return false, "the feeder table receives an entry that is not (config.NewLog(E), E.Feeder.FeedFunc()) for one configuration entry E: " + short(fmt.Sprint(mu.Args))
 				}
 			}
@@ -829,7 +918,7 @@ func ruleEveryFeeder(w *World, r *Run, rule string) {
 					}
 					for _, x := range el.Args {
 						n++
-						if !pairFromOneEntry(structField(x, c.Name), structField(x, F.Name)) {
+						if !pairFromOneEntry(structField(x, c.Name), unwrap(s, nil, 0, structField(x, F.Name))) {
 							return false, "the feeder list receives a record that is not (config.NewLog(E), E.Feeder.FeedFunc()) for one configuration entry E: " + short(x.String())
 						}
 					}
